@@ -33,28 +33,36 @@ Proof. exact detect_unmapped. Qed.
 Print Assumptions C15_detect_unmapped.
 
 (* detection is the property's classification of the file (Python / TypeScript / JavaScript / Rust by
-   extension, case-insensitively; extensionless scripts by a python shebang; everything else unrecognised) *)
-Theorem C15_detect_is_spec : forall q f,
-  q_shebang_any_ext q = false -> spec_class f = lang_class (detect q f).
-Proof. exact detect_spec. Qed.
+   extension, case-insensitively; extensionless scripts by a python shebang; everything else unrecognised).
+   Since fix 2639201 this holds for the faithful model under every quirk vector: the guard found in the source
+   (Gen.shebang_guard_any_ext = false) confines the shebang fallback to extensionless names. *)
+Theorem C15_detect_is_spec : forall q f, spec_class f = lang_class (detect q f).
+Proof. exact detect_spec_faithful. Qed.
 Print Assumptions C15_detect_is_spec.
 
-(* 3. Main theorem, full strength: for every quirk vector with the flag off, every command, every
+(* 3. Main theorem, full strength: for EVERY quirk vector (faithful model), every command, every
       configuration of the domain (every section valid: a value a linter rejects must end the run with exit
       code 2 by property C05 and is outside C15), every file and every well-formed analysis oracle, the
       command prints exactly the findings of its own linter's rules for the file's language. *)
 Theorem C15_command_output_exact : forall q cmd c t f,
+  is_command cmd = true -> atab_good t = true -> cfg_clean c = true ->
+  run_cmd q cmd c t f = Ok (spec_out cmd t f).
+Proof. exact run_cmd_exact_faithful. Qed.
+Print Assumptions C15_command_output_exact.
+
+(* the same with the flag off: independent of the guard shape in the source (stays provable if the fix is reverted) *)
+Theorem C15_command_output_exact_flag_off : forall q cmd c t f,
   q_shebang_any_ext q = false ->
   is_command cmd = true -> atab_good t = true -> cfg_clean c = true ->
   run_cmd q cmd c t f = Ok (spec_out cmd t f).
 Proof. exact run_cmd_exact. Qed.
-Print Assumptions C15_command_output_exact.
+Print Assumptions C15_command_output_exact_flag_off.
 
 Theorem C15_only_own_rules : forall q cmd c t f vs v,
-  q_shebang_any_ext q = false -> is_command cmd = true -> atab_good t = true ->
+  is_command cmd = true -> atab_good t = true ->
   run_cmd q cmd c t f = Ok vs -> In v vs ->
   exists r, In r rule_table /\ owns cmd (r_pkg r) (fst v) = true.
-Proof. exact only_own_rules. Qed.
+Proof. exact only_own_rules_faithful. Qed.
 Print Assumptions C15_only_own_rules.
 
 (* 4. Language dispatch: a rule's guard lets a detected language through only if its linter is documented
@@ -65,10 +73,10 @@ Proof. exact guard_within_docs. Qed.
 Print Assumptions C15_guard_within_documented_languages.
 
 Theorem C15_unrecognised_type_yields_no_source_analysis : forall q cmd c t f vs,
-  q_shebang_any_ext q = false -> is_command cmd = true -> atab_good t = true ->
+  is_command cmd = true -> atab_good t = true ->
   spec_class f = LOther -> run_cmd q cmd c t f = Ok vs ->
   forall v, In v vs -> exists r, In r rule_table /\ lookup (r_pkg r) doc_langs = Some None.
-Proof. exact unrecognised_yields_nothing. Qed.
+Proof. exact unrecognised_yields_nothing_faithful. Qed.
 Print Assumptions C15_unrecognised_type_yields_no_source_analysis.
 
 (* and conversely every documented language of a linter is dispatched to one of its rules *)
